@@ -622,8 +622,10 @@ def run_query(obj, q):
 
 def same_query_result(model_ret, real_ret):
     """Model's answer of a hook vs the implementation's (dir(): only the instance-dependent part, as a sorted list)."""
-    if isinstance(model_ret, dict) and isinstance(real_ret, dict) and 'masked' in real_ret:
-        return sorted(x for x in model_ret.get('names', []) if x not in real_ret['masked']) == real_ret['names']
+    if isinstance(model_ret, dict) and isinstance(real_ret, dict) and 'names' in model_ret and 'names' in real_ret:
+        # WHICH names are listed is what the property speaks about, not their order
+        masked = real_ret.get('masked', [])
+        return sorted(x for x in model_ret['names'] if x not in masked) == sorted(real_ret['names'])
     return model_ret == real_ret
 
 
